@@ -246,7 +246,7 @@ func (c *Ctx) validatorFacts(op string) *ValFacts {
 		return vf
 	}
 	vf.Fn = e.Fn
-	paths, complete := c.enumPaths(e.Fn, 3000)
+	paths, complete := c.enumPathsInl(e.Fn, 3000)
 	if !complete {
 		vf.Err = "too many paths in " + fnName(e.Fn)
 		return vf
@@ -308,7 +308,7 @@ func ruleVALTOTAL(c *Ctx, r *Report) {
 			if have["expr."+n] != nil {
 				r.ok(rule, key, "-", "present")
 			} else {
-				r.bad(rule, key, c.pos(tb.Global.Pos()), fmt.Sprintf("table expr.%s has no entry for operator %s", tn, n))
+				r.bad(rule, key, tb.where(c), fmt.Sprintf("table expr.%s has no entry for operator %s", tn, n))
 			}
 		}
 	}
@@ -575,7 +575,7 @@ func ruleVALEXACT(c *Ctx, r *Report) {
 			continue
 		}
 		seen[e.Fn] = true
-		paths, complete := c.enumPaths(e.Fn, 3000)
+		paths, complete := c.enumPathsInl(e.Fn, 3000)
 		if !complete {
 			continue
 		}
